@@ -2028,3 +2028,102 @@ func runR76(c *Ctx) {
 		}
 	}
 }
+
+// ---- R78: arguments are not passed in each other's places ----
+
+func init() {
+	register(&Rule{ID: "R78", Name: "ARG-SWAP", Floor: 10,
+		Text: "at every call of a module function or interface method, for every pair of parameters of identical type: if the two arguments are named values (a field, a parameter, a local variable) and each argument's name equals the *other* parameter's name (case-insensitive), the arguments are swapped (Comparable(o.NullLast, false, o.Reverse) against Comparable(reverse, equalNull, nullLast)). Calls where an argument's name equals its own parameter's name are counted as confirmed wirings",
+		Run:  runR78})
+}
+
+func valueName(v ssa.Value) string {
+	switch t := v.(type) {
+	case *ssa.Parameter:
+		return t.Name()
+	case *ssa.UnOp:
+		if t.Op == token.MUL {
+			if fa, ok := t.X.(*ssa.FieldAddr); ok {
+				return fieldNameAt(fa)
+			}
+			if al, ok := t.X.(*ssa.Alloc); ok {
+				return al.Comment
+			}
+		}
+	case *ssa.Field:
+		if st, ok := t.X.Type().Underlying().(*types.Struct); ok {
+			return st.Field(t.Field).Name()
+		}
+	case *ssa.Phi:
+		return t.Comment
+	case *ssa.Convert:
+		return valueName(t.X)
+	case *ssa.ChangeType:
+		return valueName(t.X)
+	}
+	return ""
+}
+
+func runR78(c *Ctx) {
+	p := c.P
+	for _, fn := range p.Funcs {
+		fnm := fname(fn)
+		eachInstr(fn, func(in ssa.Instruction) {
+			ci, ok := in.(ssa.CallInstruction)
+			if !ok || builtinName(ci) != "" {
+				return
+			}
+			cc := ci.Common()
+			var sig *types.Signature
+			var calleeName string
+			args := cc.Args
+			if cc.IsInvoke() {
+				if cc.Method.Pkg() == nil || !inModule(cc.Method.Pkg()) {
+					return
+				}
+				sig = cc.Method.Type().(*types.Signature)
+				calleeName = cc.Method.Name()
+			} else if callee := cc.StaticCallee(); callee != nil && callee.Pkg != nil && inModule(callee.Pkg.Pkg) {
+				sig = callee.Signature
+				calleeName = fname(callee)
+				if sig.Recv() != nil && len(args) > 0 {
+					args = args[1:]
+				}
+			} else {
+				return
+			}
+			n := sig.Params().Len()
+			if sig.Variadic() {
+				n--
+			}
+			if n < 2 || len(args) < n {
+				return
+			}
+			confirmed := 0
+			for i := 0; i < n; i++ {
+				pi := sig.Params().At(i)
+				ai := strings.ToLower(valueName(args[i]))
+				if ai != "" && ai == strings.ToLower(pi.Name()) {
+					confirmed++
+				}
+				for j := i + 1; j < n; j++ {
+					pj := sig.Params().At(j)
+					if !types.Identical(pi.Type(), pj.Type()) || pi.Name() == "" || pj.Name() == "" || pi.Name() == "_" {
+						continue
+					}
+					aj := strings.ToLower(valueName(args[j]))
+					if ai == "" || aj == "" || ai == aj {
+						continue
+					}
+					if ai == strings.ToLower(pj.Name()) && aj == strings.ToLower(pi.Name()) {
+						c.bad(fnm+"|call of "+calleeName, p.instrPos(in), fmt.Sprintf("argument %d is `%s` and argument %d is `%s`, but the parameters are (%s, %s) in that order: the arguments are passed in each other's places", i+1, valueName(args[i]), j+1, valueName(args[j]), pi.Name(), pj.Name()))
+						return
+					}
+				}
+			}
+			if confirmed > 0 {
+				c.okTrivial(fnm+"|call of "+calleeName, p.instrPos(in), fmt.Sprintf("%d argument(s) carry the name of their own parameter", confirmed))
+			}
+		})
+	}
+}
